@@ -5,6 +5,9 @@ package main
 
 import (
 	"bytes"
+	"net"
+	"os"
+	"path/filepath"
 	"crypto/ecdsa"
 	"crypto/elliptic"
 	"crypto/rand"
@@ -27,16 +30,18 @@ import (
 )
 
 const preamble = `From Coq Require Import String List NArith.
-From Fabio Require Import Lib.Outcome Lib.Bytes Lib.Pack Model.CertStore Check.C11.
+From Fabio Require Import Lib.Outcome Lib.Bytes Lib.Pack Model.CertStore Proofs.CertStore Check.C11.
 Import ListNotations.
 Local Open Scope N_scope.
 `
 
-var key *ecdsa.PrivateKey
-var keyPEM []byte
+// two private keys: certificates are made with key 1 unless a mismatch is wanted
+var keys = map[int]*ecdsa.PrivateKey{}
+var keyPEMs = map[int][]byte{}
 var serial int64
 
 type gcert struct {
+	kid   int
 	cn    string
 	sans  []string
 	tls   tls.Certificate
@@ -44,7 +49,10 @@ type gcert struct {
 	names []string // as BuildNameToCertificate indexes them
 }
 
-func mkCert(cn string, sans []string) *gcert {
+func mkCert(cn string, sans []string) *gcert { return mkCertK(cn, sans, 1) }
+
+func mkCertK(cn string, sans []string, kid int) *gcert {
+	key := keys[kid]
 	serial++
 	tmpl := &x509.Certificate{SerialNumber: big.NewInt(serial), Subject: pkix.Name{CommonName: cn},
 		NotBefore: time.Now().Add(-time.Hour), NotAfter: time.Now().Add(24 * time.Hour), DNSNames: sans}
@@ -52,7 +60,7 @@ func mkCert(cn string, sans []string) *gcert {
 	if err != nil {
 		panic(err)
 	}
-	g := &gcert{cn: cn, sans: sans, tls: tls.Certificate{Certificate: [][]byte{der}, PrivateKey: key}}
+	g := &gcert{kid: kid, cn: cn, sans: sans, tls: tls.Certificate{Certificate: [][]byte{der}, PrivateKey: key}}
 	g.pemC = pem.EncodeToMemory(&pem.Block{Type: "CERTIFICATE", Bytes: der})
 	// read the names back through x509 exactly as the store does
 	x, err := x509.ParseCertificate(der)
@@ -192,21 +200,167 @@ func pickCoq(i int, err error) string {
 	}
 }
 
+
+// pickIn encodes what GetCertificate returned as a model pick: the index of the returned
+// certificate in [set], the set the harness knows the store was given last (1000 when the
+// certificate is not in that set: a stale or foreign certificate)
+func pickIn(c *tls.Certificate, err error, set []*gcert) (string, int) {
+	switch {
+	case errors.Is(err, cert.ErrNoCertsStored):
+		return "PErrNoCerts", -3
+	case c == nil:
+		return "PNone", -1
+	}
+	for i, g := range set {
+		if bytes.Equal(g.tls.Certificate[0], c.Certificate[0]) {
+			return vh.App("PCert", vh.Nat(i)), i
+		}
+	}
+	return vh.App("PCert", vh.Nat(1000)), 1000
+}
+
+func namesOf(c tls.Certificate) []string {
+	x, err := x509.ParseCertificate(c.Certificate[0])
+	if err != nil {
+		return []string{"?unparsable"}
+	}
+	var out []string
+	if len(x.Subject.CommonName) > 0 {
+		out = append(out, x.Subject.CommonName)
+	}
+	return append(out, x.DNSNames...)
+}
+func coqNames(names []string) string {
+	items := make([]string, len(names))
+	for i, n := range names {
+		items[i] = vh.HxS(n)
+	}
+	return vh.List(items)
+}
+
+// ---- files of a certificate source, with what tls.X509KeyPair makes of them ----
+type pfile struct {
+	data []byte
+	cert *gcert // the leaf X509KeyPair would parse from this file, nil if none
+	key  int    // id of the private key in this file, 0 if none
+}
+
+var fileIDs = map[string]int{}
+
+func (f *pfile) coq() string {
+	id, ok := fileIDs[string(f.data)]
+	if !ok {
+		id = len(fileIDs) + 1
+		fileIDs[string(f.data)] = id
+	}
+	c, k := "None", "None"
+	if f.cert != nil {
+		c = vh.Some(vh.Pair(vh.N(f.cert.kid), coqCert(f.cert)))
+	}
+	if f.key != 0 {
+		k = vh.Some(vh.N(f.key))
+	}
+	return vh.App("pf", vh.N(id), c, k)
+}
+func certFile(g *gcert) *pfile { return &pfile{data: g.pemC, cert: g} }
+func keyFile(k int) *pfile     { return &pfile{data: keyPEMs[k], key: k} }
+func combinedFile(g *gcert, k int) *pfile {
+	return &pfile{data: append(append([]byte{}, g.pemC...), keyPEMs[k]...), cert: g, key: k}
+}
+func textFile(s string) *pfile { return &pfile{data: []byte(s)} }
+
+var badCertPEM = "-----BEGIN CERTIFICATE-----\nAAAA\n-----END CERTIFICATE-----\n"
+
+type blocks map[string]*pfile
+
+func (b blocks) raw() map[string][]byte {
+	if b == nil {
+		return nil
+	}
+	m := map[string][]byte{}
+	for n, f := range b {
+		m[n] = f.data
+	}
+	return m
+}
+func (b blocks) coqIn(order []string) string {
+	items := make([]string, len(order))
+	for i, n := range order {
+		items[i] = vh.Pair(vh.HxS(n), b[n].coq())
+	}
+	return vh.List(items)
+}
+func (b blocks) sorted() []string {
+	ns := make([]string, 0, len(b))
+	for n := range b {
+		ns = append(ns, n)
+	}
+	sort.Strings(ns)
+	return ns
+}
+
+// a load of a history
+type step struct {
+	kind string // err | nil | map
+	name string // for humans
+	b    blocks
+}
+
+func (st step) coq() string {
+	switch st.kind {
+	case "err":
+		return "LoadErr"
+	case "nil":
+		return "(Loaded None)"
+	}
+	return vh.App("Loaded", vh.Some(st.b.coqIn(st.b.sorted())))
+}
+
 type src struct{ ch chan []tls.Certificate }
 
 func (s *src) LoadClientCAs() (*x509.CertPool, error) { return nil, nil }
 func (s *src) Certificates() chan []tls.Certificate   { return s.ch }
 
+// a real TLS handshake over an in-memory pipe; returns the DER of the certificate the
+// server presented (nil when the handshake failed)
+func realHandshake(cfg *tls.Config, sn string) []byte {
+	cc, sc := net.Pipe()
+	defer cc.Close()
+	defer sc.Close()
+	go func() {
+		srv := tls.Server(sc, cfg)
+		srv.SetDeadline(time.Now().Add(5 * time.Second))
+		srv.Handshake()
+	}()
+	cli := tls.Client(cc, &tls.Config{ServerName: sn, InsecureSkipVerify: true})
+	cli.SetDeadline(time.Now().Add(5 * time.Second))
+	if err := cli.Handshake(); err != nil {
+		return nil
+	}
+	pcs := cli.ConnectionState().PeerCertificates
+	if len(pcs) == 0 {
+		return nil
+	}
+	return pcs[0].Raw
+}
+
+// names a real client puts into SNI unchanged
+func plainSNI(sn string) bool {
+	return sn != "" && sn == strings.ToLower(sn) && !strings.HasSuffix(sn, ".") && !strings.Contains(sn, "*") && net.ParseIP(sn) == nil
+}
+
 func main() {
 	run := vh.Start("C11")
 	r := run.Rng
-	var err error
-	key, err = ecdsa.GenerateKey(elliptic.P256(), rand.Reader)
-	if err != nil {
-		panic(err)
+	for kid := 1; kid <= 2; kid++ {
+		k, err := ecdsa.GenerateKey(elliptic.P256(), rand.Reader)
+		if err != nil {
+			panic(err)
+		}
+		kb, _ := x509.MarshalECPrivateKey(k)
+		keys[kid] = k
+		keyPEMs[kid] = pem.EncodeToMemory(&pem.Block{Type: "EC PRIVATE KEY", Bytes: kb})
 	}
-	kb, _ := x509.MarshalECPrivateKey(key)
-	keyPEM = pem.EncodeToMemory(&pem.Block{Type: "EC PRIVATE KEY", Bytes: kb})
 
 	// 1. getCertificate on generated sets
 	nSets := run.Scale(120, 3000)
@@ -225,16 +379,33 @@ func main() {
 			sn := randRequest(r, set)
 			strict := r.Intn(2) == 0
 			nilIndex := !strict && r.Intn(25) == 0 // a nil index is reachable only before any SetCertificates; strict lookups on it are not a state the store can be in
-			i, err := cert.VerifGetCertificate(tlsSet(set), sn, strict, nilIndex)
-			if i == -2 {
-				run.Violation(run.NextID(), "getCertificate returned a certificate that is not in the store", sn)
+			addPick(run, class, set, sn, strict, nilIndex)
+		}
+	}
+	// 1b. non-ASCII names that strings.ToLower leaves alone apart from their ASCII letters
+	// (lower-case or caseless runes): the byte-wise folding of the model applies.  Only the
+	// CommonName can carry them (x509 SANs are IA5 strings).
+	uni := []string{"bücher", "例え", "straße", "ñandú"}
+	for s := 0; s < run.Scale(12, 100); s++ {
+		var set []*gcert
+		for i, n := 0, 2+r.Intn(3); i < n; i++ {
+			l := uni[r.Intn(len(uni))]
+			cn := l + "." + doms[r.Intn(len(doms))]
+			switch r.Intn(4) {
+			case 0:
+				cn = "*." + cn
+			case 1:
+				cn = "WWW." + cn
 			}
-			var names [][]string
-			for _, g := range set {
-				names = append(names, g.names)
+			set = append(set, mkCert(cn, nil))
+		}
+		for q := 0; q < 4; q++ {
+			sn := randRequest(r, set)
+			if r.Intn(2) == 0 {
+				sn = strings.Replace(sn, "www", "wWw", 1)
+				sn = strings.Replace(sn, "com", "COM", 1)
 			}
-			run.Add(class, vh.App("CPick", coqSet(set), vh.Bool(nilIndex), vh.HxS(sn), vh.Bool(strict), pickCoq(i, err)),
-				map[string]interface{}{"certs": names, "server_name": sn, "strict": strict, "nil_index": nilIndex, "picked": i})
+			addPick(run, "pick-non-ascii", set, sn, r.Intn(2) == 0, false)
 		}
 	}
 
@@ -297,10 +468,23 @@ func main() {
 		close(stop)
 		// distinct observations only
 		dist := map[string]obs{}
+		sawA, sawB := false, false
 		for _, o := range seen {
 			dist[fmt.Sprintf("%s|%v|%d|%v", o.sn, o.fromB, o.idx, o.err)] = o
+			if o.idx >= 0 {
+				if o.fromB {
+					sawB = true
+				} else {
+					sawA = true
+				}
+			}
 		}
 		run.Notes["extra_evaluations"] = len(seen) + intNote(run.Notes["extra_evaluations"])
+		if !strict && !(sawA && sawB) {
+			// non-strict handshakes always get a certificate; 2400 of them spread over hundreds
+			// of replacements must have been answered from both sets
+			run.Violation(run.NextID(), "handshakes during replacement were never answered from one of the two alternating sets", map[string]interface{}{"saw_a": sawA, "saw_b": sawB})
+		}
 		for _, k := range sortedKeys(dist) {
 			o := dist[k]
 			if o.idx == -2 {
@@ -312,45 +496,265 @@ func main() {
 		}
 	}
 
-	// 3. the reload loop on scripted loaders
-	type step struct {
-		kind string // err | good | bad
-		id   int
+	// 2b. freshness: sets sent one after the other through the real TLSConfig; every set is
+	// sent twice, so that once the second send is accepted the set IS installed (the updater
+	// goroutine is back at its receive) and the handshake that follows is deterministic
+	for rep := 0; rep < run.Scale(24, 200); rep++ {
+		strict := rep%2 == 0
+		k := 2 + r.Intn(4)
+		sets := make([][]*gcert, k)
+		var all []*gcert
+		for i := range sets {
+			n := 1 + r.Intn(4)
+			if r.Intn(12) == 0 {
+				n = 0 // other sources than the watch loop may well send an empty set
+			}
+			sets[i] = randSet(r, n, false)
+			all = append(all, sets[i]...)
+		}
+		if rep%3 == 0 { // same names in another order: only the position tells the sets apart
+			sets[1] = append([]*gcert{}, sets[0]...)
+			for i, j := 0, len(sets[1])-1; i < j; i, j = i+1, j-1 {
+				sets[1][i], sets[1][j] = sets[1][j], sets[1][i]
+			}
+		}
+		sn := randRequest(r, all)
+		s := &src{ch: make(chan []tls.Certificate)}
+		cfg, err := cert.TLSConfig(s, strict, 0, 0, nil)
+		if err != nil {
+			panic(err)
+		}
+		var picks []string
+		var human []int
+		for _, set := range sets {
+			s.ch <- tlsSet(set)
+			s.ch <- tlsSet(set)
+			c, err := cfg.GetCertificate(&tls.ClientHelloInfo{ServerName: sn})
+			p, idx := pickIn(c, err, set)
+			picks = append(picks, p)
+			human = append(human, idx)
+			if plainSNI(sn) {
+				der := realHandshake(cfg, sn)
+				var want []byte
+				if c != nil {
+					want = c.Certificate[0]
+				}
+				if !bytes.Equal(der, want) {
+					run.Violation(run.NextID(), "a real TLS handshake was presented another certificate than GetCertificate returned", sn)
+				}
+				run.Notes["real_handshakes"] = 1 + intNote(run.Notes["real_handshakes"])
+			}
+		}
+		items := make([]string, len(sets))
+		for i, set := range sets {
+			items[i] = coqSet(set)
+		}
+		run.Add("fresh-sequential", vh.App("CFresh", vh.List(items), vh.HxS(sn), vh.Bool(strict), vh.List(picks)),
+			map[string]interface{}{"sets": len(sets), "server_name": sn, "strict": strict, "picked": human})
 	}
-	nScripts := run.Scale(18, 64)
+
+	// 2c. schedules of the steps that are atomic in the code, replayed on the real Store:
+	// SetCertificates (build, then store), VerifStoreLoad (the load of GetCertificate),
+	// VerifPickOn (its getCertificate on the loaded value)
+	for rep := 0; rep < run.Scale(60, 600); rep++ {
+		nsets := 2 + r.Intn(2)
+		sets := make([][]*gcert, nsets)
+		var all []*gcert
+		for i := range sets {
+			sets[i] = randSet(r, 1+r.Intn(4), false)
+			all = append(all, sets[i]...)
+		}
+		if rep%2 == 0 { // replacement no larger than what it replaces, same names, other order
+			sets[1] = append([]*gcert{}, sets[0]...)
+			for i, j := 0, len(sets[1])-1; i < j; i, j = i+1, j-1 {
+				sets[1][i], sets[1][j] = sets[1][j], sets[1][i]
+			}
+			if len(sets[1]) > 2 && r.Intn(2) == 0 {
+				sets[1] = sets[1][:len(sets[1])-1]
+			}
+		}
+		store := cert.NewStore()
+		type snap struct {
+			v   cert.VerifSnapshot
+			set []*gcert
+		}
+		snaps := map[int]*snap{}
+		var cur []*gcert
+		var sched, picks, human []string
+		nPub := 0
+		n := 6 + r.Intn(8)
+		act := func(kind int, t int, sn string, strict bool) {
+			switch kind {
+			case 0: // publish
+				set := sets[nPub%nsets]
+				nPub++
+				store.SetCertificates(tlsSet(set))
+				cur = set
+				sched = append(sched, vh.App("FBuild", coqSet(set)), "FStore")
+				human = append(human, fmt.Sprintf("publish#%d", (nPub-1)%nsets))
+			case 1: // load
+				snaps[t] = &snap{v: cert.VerifStoreLoad(store), set: cur}
+				sched = append(sched, vh.App("FLoad", vh.Nat(t)))
+				human = append(human, fmt.Sprintf("load%d", t))
+			case 2: // pick
+				sp := snaps[t]
+				if sp == nil {
+					return
+				}
+				c, err := cert.VerifPickOn(sp.v, sn, strict)
+				p, _ := pickIn(c, err, sp.set)
+				picks = append(picks, p)
+				sched = append(sched, vh.App("FPick", vh.Nat(t), vh.HxS(sn), vh.Bool(strict)))
+				human = append(human, fmt.Sprintf("pick%d(%s,%v)=%s", t, sn, strict, p))
+			}
+		}
+		if rep < 4 { // directed: load, replace, then compute on the value loaded before
+			sn := randRequest(r, sets[0])
+			act(1, 2, "", false) // a load before anything is published
+			act(0, 0, "", false)
+			act(1, 0, "", false)
+			act(0, 0, "", false)
+			act(2, 0, sn, rep%2 == 0)
+			act(1, 1, "", false)
+			act(2, 1, sn, rep%2 == 0)
+			act(2, 0, sn, rep%2 == 1)
+			act(2, 2, sn, rep%2 == 1)
+		}
+		for i := 0; i < n; i++ {
+			switch k := r.Intn(10); {
+			case k < 2:
+				act(0, 0, "", false)
+			case k < 5:
+				act(1, r.Intn(3), "", false)
+			default:
+				act(2, r.Intn(3), randRequest(r, all), r.Intn(2) == 0)
+			}
+		}
+		run.Add("schedule-replay", vh.App("CSched", vh.List(sched), vh.List(picks)), map[string]interface{}{"schedule": human})
+	}
+
+	// 2d. loadCertificates on generated maps (Go ranges over them in random order)
+	prefixes := []string{"a", "b", "m", "z", "A", "a-b", "-", "", "dir/x", "a.b"}
+	for rep := 0; rep < run.Scale(150, 1500); rep++ {
+		b := blocks{}
+		owner := map[*gcert]string{} // certificate -> the certificate file it sits in
+		for i, n := 0, r.Intn(6); i < n; i++ {
+			pre := prefixes[r.Intn(len(prefixes))]
+			g := mkCertK(fmt.Sprintf("f%d.example", i), nil, 1+r.Intn(8)/7)
+			switch k := r.Intn(16); {
+			case k < 6: // a complete pair
+				b[pre+"-cert.pem"], b[pre+"-key.pem"] = certFile(g), keyFile(g.kid)
+				owner[g] = pre + "-cert.pem"
+			case k == 6: // the key of another certificate
+				b[pre+"-cert.pem"], b[pre+"-key.pem"] = certFile(g), keyFile(3-g.kid)
+			case k == 7: // key without certificate
+				b[pre+"-key.pem"] = keyFile(1)
+			case k == 8: // certificate without key
+				b[pre+"-cert.pem"] = certFile(g)
+			case k < 11: // combined file
+				b[pre+".pem"] = combinedFile(g, g.kid)
+				owner[g] = pre + ".pem"
+			case k == 11: // combined file without a key
+				b[pre+".pem"] = certFile(g)
+			case k == 12: // certificate that does not parse
+				b[pre+"-cert.pem"], b[pre+"-key.pem"] = textFile(badCertPEM), keyFile(1)
+			case k == 13: // not PEM at all
+				b[pre+".pem"] = textFile("hello")
+			case k == 14: // names that are not certificate files
+				b[[]string{"README", pre + ".PEM", pre + "-cert.pem.bak", pre + ".pem.txt", "pem"}[r.Intn(5)]] = combinedFile(g, g.kid)
+			default: // both halves in the wrong files
+				b[pre+"-cert.pem"], b[pre+"-key.pem"] = keyFile(1), certFile(g)
+			}
+		}
+		// a later entry may have overwritten one half of an earlier pair: ownership is by content
+		for g, f := range owner {
+			if b[f] == nil || b[f].cert != g {
+				delete(owner, g)
+			}
+		}
+		certs, err := cert.VerifLoadCertificates(b.raw())
+		var items, human []string
+		for _, c := range certs {
+			file := "?"
+			var gg *gcert
+			for g, f := range owner {
+				if bytes.Equal(g.tls.Certificate[0], c.Certificate[0]) {
+					file, gg = f, g
+				}
+			}
+			if gg == nil {
+				items = append(items, vh.Pair(vh.HxS("?"), coqNames(namesOf(c))))
+			} else {
+				items = append(items, vh.Pair(vh.HxS(file), coqCert(gg)))
+			}
+			human = append(human, file)
+		}
+		order := b.sorted()
+		r.Shuffle(len(order), func(i, j int) { order[i], order[j] = order[j], order[i] })
+		run.Add("load-certificates", vh.App("CLoad", b.coqIn(order), vh.List(items), vh.Bool(err != nil)),
+			map[string]interface{}{"files": b.sorted(), "loaded_in_order": human, "error": err != nil})
+	}
+
+	// 3. histories of loads: the real watch loop on a scripted loader, feeding the real
+	// TLSConfig (its channel, its updater goroutine, its Store); a handshake after every
+	// iteration of the loop
 	goodSets := make([]*gcert, 4)
 	for i := range goodSets {
 		goodSets[i] = mkCert(fmt.Sprintf("set%d.example", i), nil)
 	}
-	blocksOf := func(st step) map[string][]byte {
-		switch st.kind {
-		case "good":
-			return map[string][]byte{fmt.Sprintf("s%d-cert.pem", st.id): goodSets[st.id].pemC, fmt.Sprintf("s%d-key.pem", st.id): keyPEM}
-		case "good2": // sets id and id+1 together: the next load may be a strict subset of this one
-			return map[string][]byte{fmt.Sprintf("s%d-cert.pem", st.id): goodSets[st.id].pemC, fmt.Sprintf("s%d-key.pem", st.id): keyPEM,
-				fmt.Sprintf("s%d-cert.pem", st.id+1): goodSets[st.id+1].pemC, fmt.Sprintf("s%d-key.pem", st.id+1): keyPEM}
-		default: // bad: a good pair plus unusable material -> loadCertificates fails as a whole
-			m := map[string][]byte{"s0-cert.pem": goodSets[0].pemC, "s0-key.pem": keyPEM}
-			switch st.id % 4 {
-			case 0: // certificate that does not parse
-				m["zz0-cert.pem"] = []byte("-----BEGIN CERTIFICATE-----\nAAAA\n-----END CERTIFICATE-----\n")
-				m["zz0-key.pem"] = keyPEM
-			case 1: // key without its certificate (the cert half of a split pair is gone, e.g. mid-rotation)
-				m["zz1-key.pem"] = keyPEM
-			case 2: // certificate without its key
-				m["zz2-cert.pem"] = goodSets[1].pemC
-			case 3: // combined .pem file that holds a certificate but no key
-				m["zz3.pem"] = goodSets[2].pemC
+	pair := func(b blocks, i int) {
+		b[fmt.Sprintf("s%d-cert.pem", i)], b[fmt.Sprintf("s%d-key.pem", i)] = certFile(goodSets[i]), keyFile(1)
+	}
+	mk := func(kind string, id int) step {
+		b := blocks{}
+		switch kind {
+		case "err":
+			return step{kind: "err", name: "err"}
+		case "nil": // what loadPath / loadURL return for an empty path
+			return step{kind: "nil", name: "nilmap"}
+		case "empty": // the directory is empty at the moment
+		case "readme": // no certificate files among the entries
+			b["README"] = textFile("certificates go here")
+			if id%2 == 1 {
+				b["s0-cert.pem.bak"] = certFile(goodSets[0])
 			}
-			return m
+		case "good":
+			pair(b, id)
+		case "good2": // sets id and id+1 together: the next load may be a strict subset of this one
+			pair(b, id)
+			pair(b, id+1)
+		case "combined":
+			b["zc.pem"] = combinedFile(goodSets[3], 1)
+			if id%2 == 1 { // sorts before the pair: it becomes the default certificate
+				pair(b, 2)
+				b["a.pem"] = b["zc.pem"]
+				delete(b, "zc.pem")
+			}
+		default: // bad: a good pair plus unusable material -> loadCertificates fails as a whole
+			pair(b, 0)
+			switch id % 4 {
+			case 0: // certificate that does not parse
+				b["zz0-cert.pem"], b["zz0-key.pem"] = textFile(badCertPEM), keyFile(1)
+			case 1: // key without its certificate (the cert half of a split pair is gone, e.g. mid-rotation)
+				b["zz1-key.pem"] = keyFile(1)
+			case 2: // certificate without its key
+				b["zz2-cert.pem"] = certFile(goodSets[1])
+			case 3: // combined .pem file that holds a certificate but no key
+				b["zz3.pem"] = certFile(goodSets[2])
+			}
 		}
+		return step{kind: "map", name: fmt.Sprintf("%s%d", kind, id), b: b}
 	}
 	type wres struct {
 		once    bool
+		strict  bool
 		script  []step
 		trace   []string
+		picks   map[string][]string
 		refresh time.Duration
 	}
+	probeNames := []string{"set0.example", "SET1.example.", "set2.example", "set3.example", "nothing.example"}
+	nScripts := run.Scale(26, 80)
 	results := make([]wres, nScripts)
 	var wg sync.WaitGroup
 	for si := 0; si < nScripts; si++ {
@@ -358,45 +762,57 @@ func main() {
 		n := 2 + r.Intn(3)
 		script := make([]step, n)
 		for i := range script {
-			switch k := r.Intn(11); {
+			switch k := r.Intn(14); {
 			case k < 2:
-				script[i] = step{"err", 0}
+				script[i] = mk("err", 0)
 			case k == 10:
-				script[i] = step{"good2", r.Intn(2)}
-			case k < 6:
-				script[i] = step{"good", r.Intn(3)}
+				script[i] = mk("good2", r.Intn(2))
+			case k == 11:
+				script[i] = mk([]string{"empty", "readme", "nil"}[r.Intn(3)], r.Intn(2))
+			case k == 12:
+				script[i] = mk("combined", r.Intn(2))
+			case k < 6 || k == 13:
+				script[i] = mk("good", r.Intn(3))
 			default:
-				script[i] = step{"bad", r.Intn(4)}
+				script[i] = mk("bad", r.Intn(4))
 			}
 			if i > 0 && r.Intn(3) == 0 {
 				script[i] = script[i-1] // same blocks again
 			}
 		}
+		S := func(items ...step) []step { return items }
 		directed := [][]step{
-			{{"good", 0}, {"bad", 0}, {"good", 0}},
-			{{"good", 1}, {"err", 0}, {"good", 1}, {"good", 2}},
-			{{"bad", 0}, {"good", 0}, {"good", 0}},
-			{{"good", 1}, {"bad", 1}, {"bad", 1}, {"good", 1}},
-			{{"bad", 1}, {"bad", 0}, {"good", 2}},
-			{{"good2", 0}, {"good", 0}, {"good", 1}},
-			{{"good2", 1}, {"good", 2}, {"good2", 1}, {"good", 1}},
-			{{"good", 1}, {"bad", 1}, {"good", 1}},
-			{{"good2", 0}, {"bad", 2}, {"bad", 3}, {"good", 0}},
+			S(mk("good", 0), mk("bad", 0), mk("good", 0)),
+			S(mk("good", 1), mk("err", 0), mk("good", 1), mk("good", 2)),
+			S(mk("bad", 0), mk("good", 0), mk("good", 0)),
+			S(mk("good", 1), mk("bad", 1), mk("bad", 1), mk("good", 1)),
+			S(mk("bad", 1), mk("bad", 0), mk("good", 2)),
+			S(mk("good2", 0), mk("good", 0), mk("good", 1)),
+			S(mk("good2", 1), mk("good", 2), mk("good2", 1), mk("good", 1)),
+			S(mk("good", 1), mk("bad", 1), mk("good", 1)),
+			S(mk("good2", 0), mk("bad", 2), mk("bad", 3), mk("good", 0)),
+			// a source that has nothing at the moment, after a good set
+			S(mk("good", 1), mk("empty", 0), mk("good", 1)),
+			S(mk("good2", 0), mk("readme", 0), mk("empty", 0), mk("good", 2)),
+			S(mk("good", 2), mk("readme", 1), mk("good", 2), mk("nil", 0)),
+			S(mk("empty", 0), mk("good", 0), mk("empty", 0), mk("empty", 0)),
+			S(mk("nil", 0), mk("empty", 0), mk("combined", 1), mk("combined", 0)),
 		}
 		// one-shot sources (refresh = 0): the loop retries an unusable first load every
 		// second and returns only after the first publication
 		directedOnce := [][]step{
-			{{"bad", 0}, {"good", 0}, {"good", 1}},
-			{{"err", 0}, {"good", 1}},
-			{{"bad", 2}, {"err", 0}, {"good", 2}, {"good", 0}},
-			{{"good", 0}, {"good", 1}},
+			S(mk("bad", 0), mk("good", 0), mk("good", 1)),
+			S(mk("err", 0), mk("good", 1)),
+			S(mk("bad", 2), mk("err", 0), mk("good", 2), mk("good", 0)),
+			S(mk("good", 0), mk("good", 1)),
+			S(mk("empty", 0), mk("readme", 0), mk("good", 1), mk("good", 2)),
 		}
 		if si < len(directed) {
 			once, script = false, directed[si]
 		} else if si-len(directed) < len(directedOnce) {
 			once, script = true, directedOnce[si-len(directed)]
 		}
-		results[si] = wres{once: once, script: script}
+		results[si] = wres{once: once, strict: si%2 == 0, script: script, picks: map[string][]string{}}
 		wg.Add(1)
 		go func(si int) {
 			defer wg.Done()
@@ -404,22 +820,78 @@ func main() {
 			type ev struct {
 				t    time.Time
 				kind string
-				set  int
+				k    int
+				set  string
 			}
 			var mu sync.Mutex
 			var evs []ev
 			calls := 0
 			exhausted := make(chan struct{})
 			block := make(chan struct{})
+			ch := make(chan []tls.Certificate) // watch loop -> forwarder
+			s := &src{ch: make(chan []tls.Certificate)}
+			cfg, err := cert.TLSConfig(s, res.strict, 0, 0, nil)
+			if err != nil {
+				panic(err)
+			}
+			// The forwarder stands where the channel of a real source is: it hands every
+			// publication to TLSConfig's updater twice (once the second send is accepted the
+			// first is installed) and answers a ping only when it is idle, which is how the
+			// loader below knows that everything published so far is in the store.
+			ping := make(chan struct{})
+			quit := make(chan struct{})
+			var lastSet []*gcert // the set the store was given last, as certificates of goodSets
+			go func() {
+				for {
+					select {
+					case certs := <-ch:
+						var names []string
+						var set []*gcert
+						for _, c := range certs {
+							names = append(names, coqNames(namesOf(c)))
+							for _, g := range goodSets {
+								if bytes.Equal(g.tls.Certificate[0], c.Certificate[0]) {
+									set = append(set, g)
+								}
+							}
+						}
+						mu.Lock()
+						evs = append(evs, ev{t: time.Now(), kind: "publish", set: vh.List(names)})
+						lastSet = set
+						mu.Unlock()
+						s.ch <- certs
+						s.ch <- certs
+					case ping <- struct{}{}:
+					case <-quit:
+						return
+					}
+				}
+			}()
+			probe := func() {
+				<-ping
+				mu.Lock()
+				set := lastSet
+				mu.Unlock()
+				for _, sn := range probeNames {
+					c, err := cfg.GetCertificate(&tls.ClientHelloInfo{ServerName: sn})
+					p, _ := pickIn(c, err, set)
+					res.picks[sn] = append(res.picks[sn], p)
+				}
+			}
 			loadFn := func(string) (map[string][]byte, error) {
-				// the receiver stamps a publication after the unbuffered send has completed;
-				// give it time to do so before this load is stamped, so that the order of the
-				// stamps is the order of the events
+				// the forwarder stamps a publication when it receives it; give it time to do so
+				// before this load is stamped, so that the order of the stamps is the order of
+				// the events
 				time.Sleep(40 * time.Millisecond)
 				mu.Lock()
 				k := calls
 				calls++
-				evs = append(evs, ev{time.Now(), "load", k})
+				mu.Unlock()
+				if k > 0 && k <= len(res.script) {
+					probe() // the handshakes after iteration k-1
+				}
+				mu.Lock()
+				evs = append(evs, ev{t: time.Now(), kind: "load", k: k})
 				mu.Unlock()
 				if k >= len(res.script) {
 					if k == len(res.script) {
@@ -431,9 +903,8 @@ func main() {
 				if st.kind == "err" {
 					return nil, errors.New("scripted load error")
 				}
-				return blocksOf(st), nil
+				return st.b.raw(), nil
 			}
-			ch := make(chan []tls.Certificate)
 			done := make(chan struct{})
 			// the loop must not refresh more often than once a second whatever it is asked for
 			refresh := []time.Duration{time.Second, time.Millisecond, 200 * time.Millisecond, 999 * time.Millisecond}[si%4]
@@ -442,23 +913,18 @@ func main() {
 			}
 			res.refresh = refresh
 			go func() { cert.VerifWatch(ch, refresh, "scripted", loadFn); close(done) }()
-			go func() {
-				for certs := range ch {
-					x, _ := x509.ParseCertificate(certs[0].Certificate[0])
-					id := -1
-					fmt.Sscanf(x.Subject.CommonName, "set%d.example", &id)
-					id += 10 * (len(certs) - 1) // a two-certificate set is a different publication
-					mu.Lock()
-					evs = append(evs, ev{time.Now(), "publish", id})
-					mu.Unlock()
-				}
-			}()
+			returned := false
 			select {
 			case <-exhausted:
 			case <-done:
+				returned = true
 			case <-time.After(time.Duration(len(res.script)+3) * 1500 * time.Millisecond):
 			}
 			time.Sleep(50 * time.Millisecond)
+			if returned {
+				probe() // the loop returned after its last iteration: the handshakes after it
+			}
+			close(quit)
 			mu.Lock()
 			defer mu.Unlock()
 			// build the trace: load k, then publications observed before load k+1, then a
@@ -480,7 +946,7 @@ func main() {
 				}
 				for _, e := range evs {
 					if e.kind == "publish" && e.t.After(l.t) && (next.IsZero() || e.t.Before(next)) {
-						res.trace = append(res.trace, fmt.Sprintf("(EPublish %d)", e.set))
+						res.trace = append(res.trace, vh.App("EPublish", e.set))
 					}
 				}
 				if !next.IsZero() && next.Sub(l.t) >= 800*time.Millisecond {
@@ -497,27 +963,148 @@ func main() {
 			}
 		}(si)
 	}
+
+	// 3b. the same through a real directory: PathSource -> loadPath -> watch -> TLSConfig.
+	// The directory goes through a sequence of states; after each has had two refresh
+	// intervals to settle, handshakes.  Strict and non-strict listener on the same directory.
+	type dres struct {
+		strict bool
+		states []step
+		picks  map[string][]string
+	}
+	dirCerts := make([]*gcert, 6)
+	for i := range dirCerts {
+		dirCerts[i] = mkCert(fmt.Sprintf("dir%d.example", i), nil)
+	}
+	dirNames := []string{"dir0.example", "dir1.example", "dir2.example", "DIR3.example", "dir5.example", "other.example"}
+	// file names chosen so that the order by file name is not the order of creation
+	dirStates := []struct {
+		name  string
+		files map[string]*pfile
+	}{
+		{"A", map[string]*pfile{"z-cert.pem": certFile(dirCerts[0]), "z-key.pem": keyFile(1), "m.pem": combinedFile(dirCerts[1], 1)}},
+		{"empty", map[string]*pfile{}},
+		{"B", map[string]*pfile{"b-cert.pem": certFile(dirCerts[2]), "b-key.pem": keyFile(1), "a.pem": combinedFile(dirCerts[3], 1)}},
+		{"readme-only", map[string]*pfile{"README": textFile("nothing here at the moment"), ".hidden.pem": combinedFile(dirCerts[4], 1), "x.pem.bak": combinedFile(dirCerts[4], 1)}},
+		{"C-with-orphan-key", map[string]*pfile{"c-cert.pem": certFile(dirCerts[5]), "c-key.pem": keyFile(1), "d-key.pem": keyFile(1)}},
+	}
+	dirResults := []*dres{{strict: true, picks: map[string][]string{}}, {strict: false, picks: map[string][]string{}}}
+	wg.Add(1)
+	go func() {
+		defer wg.Done()
+		dir, err := os.MkdirTemp("", "c11-certs-")
+		if err != nil {
+			panic(err)
+		}
+		defer os.RemoveAll(dir)
+		certDir := filepath.Join(dir, "cert")
+		os.Mkdir(certDir, 0o755)
+		var cfgs []*tls.Config
+		for _, d := range dirResults {
+			cfg, err := cert.TLSConfig(cert.PathSource{CertPath: certDir, ClientCAPath: filepath.Join(dir, "no-clientca"), Refresh: time.Second}, d.strict, 0, 0, nil)
+			if err != nil {
+				panic(err)
+			}
+			cfgs = append(cfgs, cfg)
+		}
+		// position of a certificate in the state it belongs to, by certificate file name
+		pos := map[*gcert]int{}
+		for _, st := range dirStates {
+			var fs []string
+			for f, pf := range st.files {
+				if pf.cert != nil && filepath.Ext(f) == ".pem" && !strings.HasPrefix(f, ".") && !strings.HasSuffix(f, "-key.pem") {
+					fs = append(fs, f)
+				}
+			}
+			sort.Strings(fs)
+			for i, f := range fs {
+				pos[st.files[f].cert] = i
+			}
+		}
+		for _, st := range dirStates {
+			// while the files are exchanged a key without certificate keeps every intermediate
+			// content of the directory unusable; removing it last makes the new state appear at once
+			poison := filepath.Join(certDir, "0-poison-key.pem")
+			os.WriteFile(poison, keyPEMs[2], 0o600)
+			old, _ := os.ReadDir(certDir)
+			for _, e := range old {
+				if e.Name() != "0-poison-key.pem" {
+					os.Remove(filepath.Join(certDir, e.Name()))
+				}
+			}
+			b := blocks{}
+			for f, pf := range st.files {
+				if err := os.WriteFile(filepath.Join(certDir, f), pf.data, 0o600); err != nil {
+					panic(err)
+				}
+				// what loadPath keeps: *.pem files that are not hidden (keys are full paths
+				// there; the file name decides the pairing and, within one directory, the order)
+				if filepath.Ext(f) == ".pem" && !strings.HasPrefix(f, ".") {
+					b[f] = pf
+				}
+			}
+			os.Remove(poison)
+			time.Sleep(2300 * time.Millisecond)
+			for i, d := range dirResults {
+				d.states = append(d.states, step{kind: "map", name: st.name, b: b})
+				for _, sn := range dirNames {
+					c, err := cfgs[i].GetCertificate(&tls.ClientHelloInfo{ServerName: sn})
+					p := "PNone"
+					switch {
+					case errors.Is(err, cert.ErrNoCertsStored):
+						p = "PErrNoCerts"
+					case c != nil:
+						p = vh.App("PCert", vh.Nat(1000))
+						for _, g := range dirCerts {
+							if bytes.Equal(g.tls.Certificate[0], c.Certificate[0]) {
+								p = vh.App("PCert", vh.Nat(pos[g]))
+							}
+						}
+					}
+					d.picks[sn] = append(d.picks[sn], p)
+				}
+			}
+		}
+	}()
 	wg.Wait()
 	for _, res := range results {
 		items := make([]string, len(res.script))
 		var human []string
 		for i, st := range res.script {
-			switch st.kind {
-			case "err":
-				items[i] = "LoadErr"
-			case "good":
-				items[i] = fmt.Sprintf("(Blocks %d (Some %d))", 10+st.id, st.id)
-			case "good2":
-				items[i] = fmt.Sprintf("(Blocks %d (Some %d))", 30+st.id, 10+st.id)
-			default:
-				items[i] = fmt.Sprintf("(Blocks %d None)", 20+st.id%4)
-			}
-			human = append(human, fmt.Sprintf("%s%d", st.kind, st.id))
+			items[i] = st.coq()
+			human = append(human, st.name)
 		}
-		run.Add("watch", vh.App("CWatch", vh.Bool(res.once), vh.List(items), vh.List(res.trace)),
-			map[string]interface{}{"once": res.once, "refresh": res.refresh.String(), "script": human, "trace": res.trace})
+		for _, sn := range probeNames {
+			run.Add("watch-to-store", vh.App("CWatch", vh.Bool(res.once), vh.List(items), vh.HxS(sn), vh.Bool(res.strict), vh.Some(vh.List(res.trace)), vh.List(res.picks[sn])),
+				map[string]interface{}{"once": res.once, "refresh": res.refresh.String(), "script": human, "trace": res.trace, "server_name": sn, "strict": res.strict, "picks": res.picks[sn]})
+		}
+	}
+	for _, d := range dirResults {
+		items := make([]string, len(d.states))
+		var human []string
+		for i, st := range d.states {
+			items[i] = st.coq()
+			human = append(human, st.name)
+		}
+		for _, sn := range dirNames {
+			run.Add("directory-to-store", vh.App("CWatch", "false", vh.List(items), vh.HxS(sn), vh.Bool(d.strict), "None", vh.List(d.picks[sn])),
+				map[string]interface{}{"states": human, "server_name": sn, "strict": d.strict, "picks": d.picks[sn]})
+		}
 	}
 	run.Finish(preamble, run.Scale(80, 400))
+}
+
+func addPick(run *vh.Run, class string, set []*gcert, sn string, strict, nilIndex bool) {
+	i, err := cert.VerifGetCertificate(tlsSet(set), sn, strict, nilIndex)
+	if i == -2 {
+		run.Violation(run.NextID(), "getCertificate returned a certificate that is not in the store", sn)
+	}
+	var names [][]string
+	for _, g := range set {
+		names = append(names, g.names)
+	}
+	run.Add(class, vh.App("CPick", coqSet(set), vh.Bool(nilIndex), vh.HxS(sn), vh.Bool(strict), pickCoq(i, err)),
+		map[string]interface{}{"certs": names, "server_name": sn, "strict": strict, "nil_index": nilIndex, "picked": i})
 }
 
 func intNote(v interface{}) int {
